@@ -248,3 +248,59 @@ Proof.
   - intros g [H|[H|[]]]; discriminate.
   - right. left. reflexivity.
 Qed.
+
+(* ------------------------------------------------------------------ sequence-level lift of the warm-up theorem *)
+(* a sequence of calls of checked cache functions, each starting from the flag state the previous one left *)
+Inductive vrun_calls (eps : list (string * vsk)) : flags -> list (list vev) -> flags -> Prop :=
+| VC_nil : forall nz, vrun_calls eps nz [] nz
+| VC_cons : forall nz name s t fl nz1 ts nz2,
+    In (name, s) eps -> vrun nz s t fl nz1 -> vrun_calls eps nz1 ts nz2 -> vrun_calls eps nz (t :: ts) nz2.
+
+Lemma vrun_calls_mono : forall eps nz ts nz', vrun_calls eps nz ts nz' -> forall x, nz x = true -> nz' x = true.
+Proof.
+  intros eps nz ts nz' H. induction H; intros x Hx; [assumption|].
+  apply IHvrun_calls. destruct (vrun_facts _ _ _ _ _ H0) as [_ [M _]]. apply M. assumption.
+Qed.
+
+(* once a guard flag g is set, NO call in ANY later sequence of calls (of any of the checked functions, in any order, any number
+   of them) observes g zero or writes a non-atomic static guarded by g: the warm state is stable under arbitrary continuations *)
+Theorem warm_stable_under_calls : forall eps g nz ts nz',
+  vcheck_program eps = [] -> nz g = true -> vrun_calls eps nz ts nz' ->
+  nz' g = true /\ forall t, In t ts -> ~ In (VZero g) t /\ forall n, guard_of n = Some g -> ~ In (VWr n) t.
+Proof.
+  intros eps g nz ts nz' Hc Hg H. split; [exact (vrun_calls_mono eps nz ts nz' H g Hg)|].
+  induction H as [|nz name s t fl nz1 ts nz2 Hin Hr Hrest IH]; intros t0 Ht0; [contradiction|].
+  destruct (vrun_facts _ _ _ _ _ Hr) as [He [M Z]].
+  destruct Ht0 as [<-|Ht0].
+  - split; [exact (Z g Hg)|]. intros n Hn Hw.
+    unfold vcheck_program in Hc. pose proof (flat_map_nil' _ _ _ _ Hc _ Hin) as Hs. cbn in Hs. apply map_eq_nil in Hs.
+    destruct (vchk_sound s t fl He [] Hs n Hw) as [g' [Hg' [[]|HZ]]]. rewrite Hn in Hg'. inversion Hg'; subst g'. exact (Z g Hg HZ).
+  - apply IH; [apply M; assumption | assumption].
+Qed.
+
+(* one warming call followed by any sequence of calls: combination with always_sets *)
+Corollary warm_call_then_any_calls : forall eps name s g nz t1 fl1 nz1 ts nz2,
+  vcheck_program eps = [] -> In (name, s) eps -> always_sets g s = true ->
+  vrun nz s t1 fl1 nz1 -> vrun_calls eps nz1 ts nz2 ->
+  forall t, In t ts -> ~ In (VZero g) t /\ forall n, guard_of n = Some g -> ~ In (VWr n) t.
+Proof.
+  intros eps name s g nz t1 fl1 nz1 ts nz2 Hc Hin Ha H1 H2.
+  exact (proj2 (warm_stable_under_calls eps g nz1 ts nz2 Hc (always_sets_sound g nz s t1 fl1 nz1 H1 Ha) H2)).
+Qed.
+
+(* non-vacuity: a cold call of the info()-shaped function followed by two further calls *)
+Example warm_call_then_any_calls_sat :
+  exists t1 nz1 ts nz2,
+    vrun (fun _ => false) info_like t1 false nz1 /\ vrun_calls [("f", info_like)] nz1 ts nz2 /\ length ts = 2%nat /\
+    In (VWr "VirtMem::info::vm_info") t1.
+Proof.
+  eexists. eexists. eexists. eexists. split; [|split; [|split]].
+  - unfold info_like. eapply VR_fn. eapply VR_seq; [apply VR_atomic|].
+    eapply VR_seq; [eapply VR_guard_enter; [reflexivity|]; eapply VR_seq; [apply VR_plain_w | apply VR_set] |].
+    eapply VR_seq; [apply VR_plain_r | apply VR_ret].
+  - eapply VC_cons; [left; reflexivity | | eapply VC_cons; [left; reflexivity | | apply VC_nil]];
+      (unfold info_like; eapply VR_fn; eapply VR_seq; [apply VR_atomic|];
+       eapply VR_seq; [apply VR_guard_skip; reflexivity|]; eapply VR_seq; [apply VR_plain_r | apply VR_ret]).
+  - reflexivity.
+  - cbn. tauto.
+Qed.
